@@ -16,43 +16,52 @@ import sys
 from pathlib import Path
 
 ID = "C05"
-LEVEL_TEXT = ("Theorems for all member lists / statement lists: is_wildcard_exposed selects exactly CPython's `import *` set (__all__ when defined, "
-              "else the non-underscore names) for modules without un-imported submodules; the visitor plus the line-number overwrite rule of "
-              "expand_wildcards binds every name to the member that executing the statements in order binds (later statement wins), for bodies "
-              "with one statement per line, any number and order of wildcard imports; with that, one module's members and CPython's namespace bind "
-              "the same names to related targets given related imports (the induction step of the composition over a dependency order); an __all__ "
-              "assembled from strings and other modules' __all__ in any mix expands to exactly CPython's list; Alias.members rebases every path under "
-              "the alias. The faithful model of the real traversal (seen-sets, early return, pending expansions, KeyError skips) refutes the full "
-              "property in seven ways, each proved by computation on a witness that is replayed on the implementation (findings F3-F8, F10; F1, F2 and F9 are repaired and their witnesses are now regression cases). The model "
-              "is tied to the code by differential runs: model vs griffe.load vs a fresh interpreter on generated packages.")
-LEVEL_NOTE = ("Trusted: Coq kernel, extraction, the package->model abstraction in this file, CPython as authority. NOT proved: (1) the composition of "
-              "the per-module theorems into `griffe_sched = py_import` for whole acyclic programs (the step is proved, the induction over the order "
-              "and the fuel bound of `final` are not); (2) that the real traversal (griffe_load) equals the dependency-order schedule (griffe_sched) "
-              "when no gap event is reported: both are checked on every generated package instead (stats real_vs_sched_compared, direct). Submodule "
-              "attributes bound on a package by the import system are outside py_import (compared modulo such names; finding F5 is classified by "
-              "signature). Docstring/labels/parameters of presented aliases are checked on the implementation only (the model carries kinds and "
-              "paths). The second expand_wildcards pass of resolve_aliases and alias-resolution caching are not modelled: packages where finding F3 "
-              "leaked an `a/b/*` pseudo-member skip (C), and names whose alias chain crosses a replaced alias member accept either target (F7).")
-MODEL = ("Model.C05_imports", "run_C05")
-COQ_TARGETS = ["Proofs/C05_imports.vo"]
+LEVEL_TEXT = ("Composition theorem (C05_composition, closed): for every program of the grammar (any number of modules and sub-packages, every import "
+              "form, __all__ = / += assembled from strings and other modules' __all__, any depth of re-export chains) that satisfies the decidable side "
+              "conditions wf_prog / wf_run, if CPython's import semantics (py_import) runs the modules in the given order without error, then the "
+              "dependency-order schedule of Griffe's per-module rules (visitor, exports expansion, wildcard expansion with the line-number rule, "
+              "self-alias skip, submodule special case, alias chains followed by `final` with the model's fuel) binds in every module exactly the "
+              "names CPython binds, each resolving to the object CPython refers to, with the same __all__. Proved by induction over the order with "
+              "an invariant per executed module; alias resolution is a relation (Res) with a fuel bound (number of modules + 1) and a stability "
+              "lemma under updates of modules it never enters; the special case of apply_one is shown transparent by a simulation against the plain "
+              "line rule. Supporting theorems for all member lists / statement lists: is_wildcard_exposed = CPython's `import *` set; visitor + "
+              "line rule = in-order execution (later statement wins); an assembled __all__ expands to CPython's list; Alias.members rebases every path "
+              "under the alias. The side conditions are exactly the per-module findings (F4 same line, F5 submodule exposure, F6 extend, F11 renamed "
+              "__all__ source, F12 flow-insensitive source) plus the generator's name discipline; each finding has a refutation proved by computation "
+              "on a witness that is replayed on the implementation (F3-F8, F10-F12; F1, F2, F9 repaired). The faithful model of the real traversal "
+              "(seen-sets, pending expansions, KeyError skips) is tied to the code by differential runs: model vs griffe.load vs a fresh interpreter.")
+LEVEL_NOTE = ("Trusted: Coq kernel, extraction, the package->model abstraction in this file, CPython as authority. NOT proved: that the real traversal "
+              "(griffe_load: expand_exports over the whole tree, then expand_wildcards, each with seen-sets) equals the dependency-order schedule "
+              "(griffe_sched) when no gap event is reported; it is checked on every generated package (stat real_vs_sched_compared) and the gap events "
+              "(pending wildcard read F3, dropped or stale __all__ source F8, pending exports read F10) are exact in that sense only empirically. The "
+              "composition theorem is relative to py_import: attributes bound on a package by the import system are outside it (compared modulo such "
+              "names; finding F5 is classified by signature); its hypotheses are evaluated by the extracted model on every generated package (they "
+              "hold on about 80 %) and its conclusion is checked against the interpreter there. Docstring/labels/parameters of presented aliases are "
+              "checked on the implementation only (the model carries kinds and paths). Alias-resolution caching is over-approximated: packages where "
+              "F3 leaked an `a/b/*` pseudo-member skip (C); names whose alias chain crosses a replaced alias member, and entries whose special-case "
+              "comparison crosses one, accept either outcome (F7).")
+MODEL = ("Model.C05_wf", "run_C05w")
+COQ_TARGETS = ["Proofs/C05_imports.vo", "Proofs/C05_main.vo"]
 RULE = ("hand-written packages (one per rule of the anchored code) and the finding witnesses; seeded random packages in three streams: flat "
         "(package __init__ + 1-4 modules), rich (1-3 modules, a sub-package with 1-2 modules, optionally a nested sub-package) and cyclic (rich or "
         "flat plus 1-2 imports pointing forward in the order; model-vs-implementation only). A random dependency order (each __init__ before, after "
         "or among its descendants), every module importing only from earlier ones with from-import (absolute/relative, aliased), wildcard, "
         "`import a.b.c [as x]`, `from pkg import submodule [as x]`, 1-6 statements over 6 names so that rebinding is frequent, __all__ = / += in "
-        "list, tuple, +, starred and annotated forms placed anywhere, assembled from other modules' __all__ through a module alias, a re-exported "
-        "module alias or an imported __all__ name. Submodule attachment order is read from the directory listing (os.walk), as the loader does. "
-        "A package counts for the direct comparison when the interpreter imports it identically under two submodule import orders without "
-        "reading a partially initialised module; non-trivial = has a wildcard import or an __all__; distinct by source text")
+        "list, tuple, +, starred and annotated forms placed anywhere, with duplicate entries, assembled from 0-3 other modules' __all__ in ONE "
+        "statement (attribute form and name form mixed, the same module twice) through a module alias, a re-exported module alias, an imported "
+        "__all__ name or a re-exported renamed __all__ name; source names are listed in __all__ themselves (so wildcard imports rebind them) and "
+        "are sometimes bound again after use (flow-sensitivity). Submodule attachment order is read from the directory listing (os.walk), as the "
+        "loader does. A package counts for the direct comparison when the interpreter imports it identically under two submodule import orders "
+        "without reading a partially initialised module; non-trivial = has a wildcard import or an __all__; distinct by source text")
 TRUSTED = ["abstraction: harness renders the abstract package to files, records the first line of each statement, resolves relative imports to absolute "
            "module paths itself (not via Griffe) and lists submodules in sorted order",
            "oracle driver: imports the top package then every submodule with importlib in a fresh `python -I` process; a builtins.__import__ hook "
            "flags reads of modules whose __spec__._initializing is set"]
-ASSUMPTIONS = ["the names w<k>/a<k> used as sources of an __all__ are bound once, by the import written for that purpose (a later explicit rebinding makes "
-               "Griffe's flow-insensitive name resolution pick another module than CPython's statement-time lookup)",
-               "acyclic = no module's namespace is read while it is being initialised (checked dynamically in the interpreter); the theorems use a "
-               "dependency order in which every import targets an earlier module",
-               "names bound by statements are disjoint from submodule names (generator), so package attributes set by importing submodules never shadow members",
+ASSUMPTIONS = ["acyclic = no module's namespace is read while it is being initialised (checked dynamically in the interpreter); the theorems use a "
+               "dependency order in which every import targets an earlier module (py_import fails otherwise)",
+               "composition theorem: wf_prog (one statement per line, no __all__.extend, plain bound names, a submodule name bound only to that "
+               "submodule, sources of an assembled __all__ bound once before use with no wildcard import in between) and wf_run (wildcard imports keep "
+               "submodule names, bound public submodules of a package without __all__ are recorded imports): decidable, evaluated on every package",
                "every defined object is a class or a function, so its identity is recoverable from __module__/__qualname__"]
 ALLOWED_AXIOMS = []
 
@@ -662,6 +671,9 @@ def gen_body(rng, mod, earlier, sim, mods, rich):
                     item = ["name", local, ftype]
                 items.insert(rng.randint(0, len(items)), item)
                 listed_total += sim.all[tp]
+            if nforeign >= 2 and rng.random() < 0.6:
+                # all the wildcard imports first: then no wildcard import stands between the import of a source and the __all__ statement
+                pre = [x for x in pre if x[0] == "star"] + [x for x in pre if x[0] != "star"]
             # `+` needs operands of one sequence type; starred elements take any
             uniform = len(ftypes) <= 1
             ftype = next(iter(ftypes)) if len(ftypes) == 1 else None
@@ -683,6 +695,21 @@ def gen_body(rng, mod, earlier, sim, mods, rich):
             body[pos:pos] = pre + [st]
         sim.all[me] = listed_total
         sim.alltype[me] = own_type
+        if rng.random() < 0.06:
+            # flow-sensitivity: a source name is bound again AFTER the __all__ statement that reads it (CPython has already read the first binding)
+            uses = [(k2, it) for k2, st2 in enumerate(body) if st2[0] in ("setall", "addall") for it in st2[2] if it[0] != "s"]
+            if uses:
+                k2, it = rng.choice(uses)
+                if it[0] == "attr":
+                    tp2 = tuple(rng.choice(earlier)["path"])
+                    body.insert(rng.randint(k2 + 1, len(body)), ["import", list(tp2), it[1]])
+                    ns[it[1]] = ("mod", dotted(tp2))
+                else:
+                    cands2 = [e for e in earlier if sim.all.get(tuple(e["path"])) is not None]
+                    if cands2:
+                        tp2 = tuple(rng.choice(cands2)["path"])
+                        body.insert(rng.randint(k2 + 1, len(body)), ["from", list(tp2), "__all__", it[1], style()])
+                        ns[it[1]] = ("all", dotted(tp2))
     sim.ns[me] = ns
     mod["body"] = body
 
@@ -775,7 +802,10 @@ def abstract_package(pkg, root=None):
 def model_inputs(pkg, root=None):
     ab = abstract_package(pkg, root)
     order = [p.split(".") for p in pkg["order"]]
-    return [["load", pkg["name"], ab], ["sched", pkg["name"], ab, order], ["spec", ab, order]]
+    return [["load", pkg["name"], ab], ["sched", pkg["name"], ab, order], ["spec", ab, order], ["wf", pkg["name"], ab, order]]
+
+
+NMODEL = 4      # requests per package
 
 
 def _items(ex):
@@ -806,8 +836,8 @@ def decode_load(r):
         for mp, n, views in r[5]:
             alts[(mp, n)] = [["unresolved"] if v[0] == "unresolved" else [v[0], v[1]] for v in views]
         return {"error": None, "modules": decode_model_table(r[1]), "f3": [list(x) for x in r[2]], "unsupported": bool(r[3]),
-                "dropped": [list(x) for x in r[4]], "alts": alts, "xpending": [list(x) for x in r[6]]}
-    base = {"modules": {}, "f3": [], "dropped": [], "alts": {}, "xpending": []}
+                "dropped": [list(x) for x in r[4]], "alts": alts, "xpending": [list(x) for x in r[6]], "stale": [list(x) for x in r[7]]}
+    base = {"modules": {}, "f3": [], "dropped": [], "alts": {}, "xpending": [], "stale": []}
     if r[0] == "crash":
         return dict(base, error=r[1], unsupported=False)
     return dict(base, error="model:" + str(r[0]), unsupported=True)
@@ -968,6 +998,14 @@ def all_witnesses():
         _m(["wf11", "b"], False, [["from", ["wf11", "a"], "__all__", "a0", "rel"], ["def", "g", "func"], ["setall", "list", [["s", "g"]]]]),
         _m(["wf11", "c"], False, [["star", ["wf11", "a"], "rel"], ["from", ["wf11", "b"], "a0", "a1", "rel"],
                                   ["setall", "plus", [["name", "a1", "list"], ["s", "h"]]], ["def", "h", "func"]])]}
+    # F12: the name an __all__ is assembled from is rebound by a wildcard import between its import and the __all__ statement
+    W["C05-F12"] = {"name": "wf12", "order": ["wf12", "wf12.a", "wf12.b", "wf12.d", "wf12.c"], "modules": [
+        _m(["wf12"], True, []),
+        _m(["wf12", "a"], False, [["setall", "list", [["s", "f"]]], ["def", "f", "func"]]),
+        _m(["wf12", "b"], False, [["setall", "list", [["s", "g"]]], ["def", "g", "func"]]),
+        _m(["wf12", "d"], False, [["from", ["wf12", "a"], "__all__", "a0", "rel"]]),
+        _m(["wf12", "c"], False, [["star", ["wf12", "a"], "rel"], ["from", ["wf12", "b"], "__all__", "a0", "rel"], ["star", ["wf12", "d"], "rel"],
+                                  ["setall", "list", [["name", "a0", "list"]]]])]}
     return W
 
 
@@ -1000,6 +1038,43 @@ def renamed_all_sources(pkg):
     return out
 
 
+def _binds(st, l):
+    if st[0] == "def":
+        return st[1] == l
+    if st[0] == "from":
+        return (st[3] or st[2]) == l
+    if st[0] == "import":
+        return (st[2] or st[1][0]) == l
+    return False
+
+
+def flow_sensitive_sources(pkg, oracle=None):
+    """[module, local]: a source name of an __all__ that is not bound exactly once in its module, by an import standing before the __all__
+    statement with no wildcard import in between that rebinds it: CPython reads the name when the statement runs, Griffe resolves it once for
+    the whole module, before wildcard imports are expanded.  Python mirror of the negation of the Coq predicate `refs_ok_from` (finding F12);
+    with the interpreter's namespaces at hand, a wildcard import in between only counts when it exposes the name."""
+    def exposes(target, l):
+        if oracle is None:
+            return True
+        om = oracle["modules"].get(dotted(target))
+        if om is None:
+            return True
+        return l in om["all"] if om["all"] is not None else (l in om["names"] and not l.startswith("_"))
+    out = []
+    for m in pkg["modules"]:
+        sts = [st for _, st in stmt_tags({"modules": [m]})]
+        for k, st in enumerate(sts):
+            if st[0] not in ("setall", "addall", "extall"):
+                continue
+            for it in st[2]:
+                if it[0] == "s":
+                    continue
+                b = [j for j, s2 in enumerate(sts) if _binds(s2, it[1])]
+                if not (len(b) == 1 and b[0] < k and not any(sts[j][0] == "star" and exposes(sts[j][1], it[1]) for j in range(b[0] + 1, k))):
+                    out.append([dotted(m["path"]), it[1]])
+    return out
+
+
 def f5_signature(x, oracle):
     """[module, name, griffe, cpython]: CPython sees a submodule bound on a star-imported package that has no __all__; Griffe has no such name
     (or an alias that cannot resolve because the name it imports is such a submodule attribute)."""
@@ -1023,6 +1098,7 @@ def classify(pkg, view, oracle, ml, ms_view, dmi, leak):
     same_line = has_stmt(pkg, "semi")
     ext = has_stmt(pkg, "extall")
     renamed = bool(renamed_all_sources(pkg))
+    flow = bool(flow_sensitive_sources(pkg, oracle))
     for x in d:
         key = (x[0], x[1])
         if x[1] == "__all__" or x[2] is None:
@@ -1043,15 +1119,19 @@ def classify(pkg, view, oracle, ml, ms_view, dmi, leak):
                 out.append((x, "C05-F4"))
             elif renamed and not dmi:
                 out.append((x, "C05-F11"))
+            elif flow and not dmi:
+                out.append((x, "C05-F12"))
             else:
                 out.append((x, None))
         else:
             # only the real traversal order is wrong: explained when the model predicts the result and reports the gap event
             if leak and ml["f3"]:
                 out.append((x, "C05-F3"))
-            elif not dmi and (ml["f3"] or ml["dropped"] or ml["xpending"]):
-                only = lambda k: ml[k] and not any(ml[o] for o in ("f3", "dropped", "xpending") if o != k)
-                out.append((x, "C05-F3" if only("f3") else "C05-F8" if only("dropped") else "C05-F10" if only("xpending") else
+            elif not dmi and (ml["f3"] or ml["dropped"] or ml["stale"] or ml["xpending"]):
+                f8 = ml["dropped"] or ml["stale"]
+                ev = {"f3": ml["f3"], "f8": f8, "xpending": ml["xpending"]}
+                only = lambda k: ev[k] and not any(ev[o] for o in ev if o != k)
+                out.append((x, "C05-F3" if only("f3") else "C05-F8" if only("f8") else "C05-F10" if only("xpending") else
                             "C05-F3" if ml["f3"] else "C05-F10" if ml["xpending"] else "C05-F8"))
             else:
                 out.append((x, None))
@@ -1137,6 +1217,7 @@ def observe_package(ctx, pkg, stream):
             if len(set(strs)) < len(strs):
                 ctx.observe("all_duplicate_string", t)
         ctx.observe("stmt", t)
+    ctx.observe("all_source_binding", "flow-sensitive" if flow_sensitive_sources(pkg) else "bound-once-before-use")
     for m in pkg["modules"]:
         if m["init"] and len(m["path"]) > 0:
             kids = [c for c in pkg["modules"] if c["path"][:-1] == m["path"] and len(c["path"]) == len(m["path"]) + 1]
@@ -1163,9 +1244,17 @@ def check_packages(ctx, pkgs, stream, direct=True):
     outs = ctx.model(ins)
     for i, (pkg, a, b) in enumerate(zip(pkgs, o1, o2)):
         case = {"package": pkg["name"], "order": pkg["order"], "sources": package_sources(pkg), "abstract": pkg["modules"]}
-        ml = decode_load(outs[3 * i])
-        ms_view = decode_model_table(outs[3 * i + 1][1])
-        sp = decode_spec(outs[3 * i + 2])
+        ml = decode_load(outs[NMODEL * i])
+        ms_view = decode_model_table(outs[NMODEL * i + 1][1])
+        sp = decode_spec(outs[NMODEL * i + 2])
+        wfr = outs[NMODEL * i + 3]
+        # the hypotheses of the composition theorem (C05_composition), evaluated by the extracted model: [static, on CPython's run, conclusion]
+        wf = wfr[0] == "ok" and bool(wfr[1]) and bool(wfr[2])
+        if direct:
+            ctx.observe("composition_hypotheses", ("py_import-error" + ("" if wfr[1] else "+not-wf_prog")) if wfr[0] != "ok" else
+                        "hold" if wf else "not-wf_prog" if not wfr[1] else "not-wf_run")
+        if wf and not wfr[3]:
+            ctx.tie_failure("proof", "C05_composition contradicted by the extracted model", wfr, case)
         observe_package(ctx, pkg, stream)
         view = griffe_view(root, pkg)
         top = view.pop("top", None)
@@ -1174,7 +1263,8 @@ def check_packages(ctx, pkgs, stream, direct=True):
         ctx.case({"sources": case["sources"]}, nontrivial)
         # ---- (C) faithful model vs implementation (needs no interpreter: also run on packages the interpreter rejects)
         ctx.observe("model_outcome", "crash:" + ml["error"] if ml["error"] else "f3-leak" if ml["f3"] and leak else "f3" if ml["f3"] else
-                    "f8-dropped" if ml["dropped"] else "f10-exports-pending" if ml["xpending"] else "f7-replaced-alias" if ml["alts"] else "clean")
+                    "f8-dropped" if ml["dropped"] else "f8-stale-source" if ml["stale"] else "f10-exports-pending" if ml["xpending"] else
+                    "f7-replaced-alias" if ml["alts"] else "clean")
         if ml["error"] and ml["error"].startswith("model:"):
             ctx.tie_failure("harness", "the model ran out of fuel or rejected its input", ml["error"], case)
             dmi = []
@@ -1191,9 +1281,9 @@ def check_packages(ctx, pkgs, stream, direct=True):
                 dmi = [x for x in dmi if ["unresolved"] not in (x[2], x[3])]
             ctx.count("c_compared")
             if dmi:
-                ctx.tie_failure("correspondence", "griffe_load(model) vs griffe.load", {"diffs": dmi[:6], "model_flags": [ml["f3"], ml["dropped"], ml["xpending"]]}, case)
+                ctx.tie_failure("correspondence", "griffe_load(model) vs griffe.load", {"diffs": dmi[:6], "model_flags": [ml["f3"], ml["dropped"], ml["xpending"], ml["stale"]]}, case)
         # the unproved link between the real traversal and the dependency-order schedule, checked on every clean run
-        if direct and not ml["error"] and not ml["f3"] and not ml["dropped"] and not ml["xpending"] and not ml["unsupported"]:
+        if direct and not ml["error"] and not ml["f3"] and not ml["dropped"] and not ml["stale"] and not ml["xpending"] and not ml["unsupported"]:
             if ml["modules"] != ms_view and (a["error"] is None and not a["flags"]):
                 ctx.tie_failure("correspondence", "griffe_load(model) vs griffe_sched(model) on a run without gap events",
                                 {"real": ml["modules"], "sched": ms_view}, case)
@@ -1217,6 +1307,13 @@ def check_packages(ctx, pkgs, stream, direct=True):
         if dso:
             ctx.tie_failure("oracle", "py_import(model) vs CPython", {"diffs": dso[:6]}, case)
         ctx.count("o_compared")
+        # the composition theorem, tied to the run: when its hypotheses hold the schedule equals py_import, which equals the interpreter up
+        # to the attributes the import system binds on packages (finding F5's signature)
+        if wf:
+            ctx.count("composition_hypotheses_hold")
+            dsched = [x for x in diff_views({"error": None, "modules": ms_view}, a) if not f5_signature(x, a)]
+            if dsched and not dso:
+                ctx.tie_failure("correspondence", "C05_composition: griffe_sched(model) vs CPython under wf_prog/wf_run", {"diffs": dsched[:6]}, case)
         # ---- direct evaluation of the property: griffe.load vs the interpreter
         view["top"] = top
         pres = view["present"] + (presented_facts(view, a) if not view["error"] else [])
@@ -1252,11 +1349,11 @@ def replay_witnesses(ctx):
         ok = orc[i]["error"] is None and bool(d)
         ctx.witness(fid, ok)
         if outs is not None:
-            ml = decode_load(outs[3 * i])
+            ml = decode_load(outs[NMODEL * i])
             dmi = diff_model_impl(ml, view)
             if dmi:
                 ctx.tie_failure("correspondence", f"model vs implementation on the witness of {fid}", dmi[:4], {"sources": package_sources(pkg)})
-            flags = {"C05-F3": bool(ml["f3"]), "C05-F7": bool(ml["alts"]), "C05-F8": bool(ml["dropped"]), "C05-F10": bool(ml["xpending"])}
+            flags = {"C05-F3": bool(ml["f3"]), "C05-F7": bool(ml["alts"]), "C05-F8": bool(ml["dropped"] or ml["stale"]), "C05-F10": bool(ml["xpending"])}
             if fid in flags and not flags[fid]:
                 ctx.tie_failure("correspondence", f"model does not report the gap event of {fid} on its witness", ml, {"sources": package_sources(pkg)})
 
@@ -1337,7 +1434,7 @@ def py_triggers(pkg):
         st[0] == "from" and st[2] != "__all__" and st[3] and st[3][0] == "w" for m in mods.values() for _, st in stmt_tags({"modules": [m]}))
     # an explicitly imported name may be re-bound by a wildcard import of the same module (replaced alias member: F7)
     f7 = any(stars[p] and any(st[0] in ("from", "import") for _, st in stmt_tags({"modules": [m]})) for p, m in mods.items())
-    return {"f3": f3, "f7": f7, "f8": f8, "f11": bool(renamed_all_sources(pkg))}
+    return {"f3": f3, "f7": f7, "f8": f8, "f11": bool(renamed_all_sources(pkg)) or bool(flow_sensitive_sources(pkg))}
 
 
 def replay(ctx, data):
